@@ -110,6 +110,9 @@ type tunnel struct {
 	// segment number cpauseAt / upauseAt (-1: never)
 	cpauseAt, upauseAt int
 	pause              time.Duration
+	// listener option wt= (write timeout towards the client) without a read timeout: it limits
+	// how long one write may block, not how long a side may stay quiet
+	writeTimeout time.Duration
 }
 
 func genStream(t *rapid.T, label string, allowEmpty bool) []byte {
@@ -204,6 +207,9 @@ func (tn tunnel) String() string {
 	s := fmt.Sprintf("kind=%s pxyproto=%v mode=%s client=%dB segments=%v upstream=%dB segments=%v bytes-with-hello=%d alpn-names=%d", tn.kind, tn.pxyproto, tn.mode, len(tn.client), trunc(tn.cseg), len(tn.upstream), trunc(tn.useg), tn.withHello, tn.alpn)
 	if tn.pause > 0 {
 		s += fmt.Sprintf(" quiet-for=%v before client segment %d / upstream segment %d", tn.pause, tn.cpauseAt, tn.upauseAt)
+	}
+	if tn.writeTimeout > 0 {
+		s += fmt.Sprintf(" listener-write-timeout=%v", tn.writeTimeout)
 	}
 	return s
 }
@@ -378,7 +384,7 @@ func runTunnel(tn tunnel) (res result) {
 		case "dynamic":
 			h = &tcp.DynamicProxy{Lookup: lookup, DialTimeout: 5 * time.Second}
 		}
-		srv := &tcp.Server{Handler: h}
+		srv := &tcp.Server{Handler: h, WriteTimeout: tn.writeTimeout}
 		go srv.Serve(ln)
 		frontAddr, closeFront = ln.Addr().String(), func() { srv.Close() }
 	}
@@ -647,6 +653,9 @@ func TestC09LongLived(t *testing.T) {
 			if tn.cpauseAt < 0 && tn.upauseAt < 0 {
 				tn.upauseAt = 0
 			}
+			if tn.kind != "ws" && rapid.Bool().Draw(t, "listener-write-timeout") {
+				tn.writeTimeout = time.Duration(rapid.SampledFrom([]int{400, 700}).Draw(t, "wt_ms")) * time.Millisecond
+			}
 			tns[i] = tn
 		}
 		msgs := make([]string, n)
@@ -678,6 +687,9 @@ func TestC09LongLived(t *testing.T) {
 			}
 			if tns[i].upauseAt >= 0 {
 				hx.Class("upstream-quiet>1s-then-sends")
+			}
+			if tns[i].writeTimeout > 0 {
+				hx.Class("long-lived:listener-write-timeout-shorter-than-the-quiet-period")
 			}
 		}
 		if hx.WantSample("long-lived") {
